@@ -56,9 +56,16 @@ struct Model
     bool refuse_invoked = false; // some accept(0) was invoked (free-running)
     // pending write
     bool pending = false;
+    bool unmap_due = false; // an aborted write whose write_unmap is still due
     uint8_t* wptr = nullptr;
     size_t wlen = 0;
     uint32_t last_end = 0; // ring address just past the last handed-out write
+    // where the channel's head is: the start of the last handed-out write
+    // until that write is committed, its end afterwards (the lap change
+    // happens when the region is handed out, so this holds for aborted writes)
+    uint32_t head_addr = 0;
+    // threads other than the writer that are inside a channel call right now
+    int in_call = 0;
     ReaderM rd[8];
     bool free_running = false;
     // false once a commit raced a refusal in free-running mode: the stream is
@@ -160,6 +167,8 @@ on_write_mapped(Model& m, uint8_t* p, size_t n)
     m.wptr = p;
     m.wlen = n;
     m.last_end = a + (uint32_t)n;
+    if (n)
+        m.head_addr = a;
     fill_write(m, false);
     // C02: filling must not have disturbed any mapped reader region
     for (int i = 0; i < 8; ++i)
@@ -174,6 +183,7 @@ model_commit(Model& m)
         m.segs.push_back(Seg{ m.S_inv, (uint32_t)m.wlen,
                               (uint32_t)(m.wptr - m.ch.data) });
         m.S_inv += m.wlen;
+        m.head_addr = (uint32_t)(m.wptr - m.ch.data) + (uint32_t)m.wlen;
         // prune segments that have certainly been overwritten
         uint64_t later = 0;
         size_t keep_from = 0;
@@ -223,6 +233,88 @@ do_abort(Model& m, bool then_unmap = false)
     }
 }
 
+// ---- C03: does a request of n bytes fit, given what the readers have
+// consumed?  Ring geometry only: occupied = every committed byte some started
+// reader has not consumed (a mapped region counts until its unmap).  The
+// request fits at the head if it ends inside the buffer and meets nothing
+// occupied, or - when nothing occupied lies at or beyond the head, i.e. the
+// writer has not lapped a reader - at offset 0 if it ends before the first
+// occupied byte.  A reader that has consumed an old lap to its end while its
+// next byte (or the head) is at offset 0 may legitimately still be booked at
+// that end until its next call: it is counted as occupying the byte there (the
+// conservative reading), so that only a request that fits under both readings
+// is judged.
+// Returns 1 fits, 0 does not, -1 not decidable from the model.
+static int
+model_fits(const Model& m, size_t n)
+{
+    if (!m.exact || m.pending || n == 0 || n >= m.cap)
+        return -1;
+    std::vector<std::pair<uint32_t, uint32_t>> occ;
+    for (int i = 0; i < 8; ++i) {
+        const ReaderM& r = m.rd[i];
+        if (!r.started)
+            continue;
+        if (!r.cursor_known)
+            return -1;
+        if (r.cursor > m.S_ret)
+            return -1;
+        bool have_next = false, have_prev = r.cursor == 0;
+        uint32_t next_addr = 0, prev_end = 0;
+        for (auto it = m.segs.rbegin(); it != m.segs.rend(); ++it) {
+            const Seg& g = *it;
+            uint64_t end = g.off + g.len;
+            if (end > r.cursor) {
+                uint64_t from = std::max<uint64_t>(g.off, r.cursor);
+                occ.push_back({ g.addr + (uint32_t)(from - g.off),
+                                g.addr + g.len });
+                if (g.off <= r.cursor) {
+                    have_next = true;
+                    next_addr = g.addr + (uint32_t)(r.cursor - g.off);
+                }
+            }
+            if (r.cursor > 0 && g.off < r.cursor && r.cursor <= end) {
+                have_prev = true;
+                prev_end = g.addr + (uint32_t)(r.cursor - g.off);
+            }
+            if (end < r.cursor)
+                break;
+        }
+        if (r.cursor < m.S_ret && !have_next)
+            return -1; // the segment was pruned
+        if (!have_prev)
+            return -1;
+        // where the reader is booked if nothing has moved it since its last
+        // unmap: just past the last byte it consumed.  Its next byte (or, for
+        // a reader that has consumed everything, the head) may be elsewhere
+        // after a lap change; the channel moves the reader at its next call.
+        const uint32_t expect = have_next ? next_addr : m.head_addr;
+        if (r.cursor > 0 && prev_end != expect && prev_end < m.cap)
+            occ.push_back({ prev_end, prev_end + 1 });
+    }
+    const uint32_t h = m.head_addr;
+    bool lapped = false;
+    uint32_t first = UINT32_MAX;
+    for (auto& o : occ) {
+        if (o.second > h && o.first >= h)
+            lapped = true;
+        if (o.first < h && o.second > h)
+            return -1; // head inside occupied bytes: model out of step
+        first = std::min(first, o.first);
+    }
+    if ((size_t)h + n <= m.cap) {
+        bool clear = true;
+        for (auto& o : occ)
+            if (o.first < h + n && h < o.second)
+                clear = false;
+        if (clear)
+            return 1;
+    }
+    if (!lapped && (occ.empty() || n <= first))
+        return 1;
+    return 0;
+}
+
 static const Seg*
 find_seg_at_addr(Model& m, uint32_t a)
 {
@@ -240,7 +332,9 @@ do_rmap(Model& m, int i)
         return;
     const uint64_t sret = m.S_ret; // commits that returned before this call
     bool first = !r.started;
+    ++m.in_call;
     struct slice s = channel_read_map(&m.ch, &r.r);
+    --m.in_call;
     size_t len = (size_t)(s.end - s.beg);
     probe("n.read_maps");
     if (m.free_running)
@@ -367,7 +461,9 @@ do_runmap(Model& m, int i, const std::string& k)
     r.mapped = false;
     if (m.free_running)
         hist("runmap %d consumed=%zu", i, consumed);
+    ++m.in_call;
     channel_read_unmap(&m.ch, &r.r, kk);
+    --m.in_call;
     probe("n.read_unmaps");
 }
 
@@ -578,9 +674,18 @@ struct ChanHarness : Harness
                 if (x < write_w) {
                     p.ops.push_back("wmap n=" + gen_size(g, cap));
                 } else if (x < 2 * write_w) {
-                    p.ops.push_back(g.chance(0.85)
-                                      ? "wcommit"
-                                      : (g.chance(0.5) ? "wabort" : "wabort unmap=1"));
+                    if (g.chance(0.85))
+                        p.ops.push_back("wcommit");
+                    else {
+                        // abort alone; abort followed at once by the unmap the
+                        // source thread issues; or abort now, that unmap later
+                        // (other operations in between)
+                        static const char* v[] = { "wabort", "wabort unmap=1",
+                                                   "wabort hold=1" };
+                        p.ops.push_back(v[g.below(3)]);
+                    }
+                    if (g.chance(0.1))
+                        p.ops.push_back("wunmap");
                 } else if (x < 2 * write_w + read_w) {
                     snprintf(b, sizeof(b), "rmap r=%d",
                              (int)g.below((uint64_t)readers));
@@ -724,8 +829,16 @@ struct ChanHarness : Harness
         settle();
         for (auto& line : plan.ops) {
             Op op = parse_op(line);
-            if (op.name == "wmap") {
-                if (mb->busy || m->pending)
+            if (op.name == "wunmap") {
+                if (!m->unmap_due)
+                    continue;
+                // the unmap that belongs to an aborted write commits nothing
+                m->unmap_due = false;
+                channel_write_unmap(&m->ch);
+                probe("n.late_unmap_after_abort");
+                hist("wunmap (after abort)");
+            } else if (op.name == "wmap") {
+                if (mb->busy || m->pending || m->unmap_due)
                     continue;
                 wlen_req = resolve_size(*m, op.s("n", "1"));
                 sim_pthread_mutex_lock(&mb->mu);
@@ -766,6 +879,8 @@ struct ChanHarness : Harness
                 if (!m->pending)
                     continue;
                 do_abort(*m, op.i("unmap", 0) != 0);
+                if (op.i("hold", 0))
+                    m->unmap_due = true;
                 hist("wabort");
             } else if (op.name == "rmap") {
                 int i = (int)(op.i("r") % nreaders);
@@ -786,7 +901,7 @@ struct ChanHarness : Harness
                       (unsigned long long)m->rd[i].cursor);
             } else if (op.name == "newlap") {
                 // contract: not while a write is mapped (or being waited for)
-                if (mb->busy || m->pending)
+                if (mb->busy || m->pending || m->unmap_due)
                     continue;
                 channel_start_new_lap_if_drained(&m->ch);
                 probe("n.newlap_calls");
@@ -823,6 +938,10 @@ struct ChanHarness : Harness
             }
         }
         // ---- epilogue: drain everything; the writer must get through
+        if (m->unmap_due) {
+            m->unmap_due = false;
+            channel_write_unmap(&m->ch);
+        }
         if (!m->accepting) {
             channel_accept_writes(&m->ch, 1);
             m->accepting = true;
@@ -925,6 +1044,7 @@ struct ChanHarness : Harness
         // workload itself starved the writer (a reader stopped for good
         // without consuming), which the property allows.
         bool poked = false;
+        size_t blocked_n = 0; // size of the request write_map is working on
         set_deadlock_hook([&, m](const std::string& graph) -> bool {
             if (toggler_done && !m->accepting)
                 oracle_fail("C03.refusal_does_not_release_writer",
@@ -950,9 +1070,37 @@ struct ChanHarness : Harness
                             "every reader consumed everything committed but "
                             "the writer still sleeps in write_map: %s",
                             graph.c_str());
+            int fit = model_fits(*m, blocked_n);
+            if (fit == 1)
+                oracle_fail("C03.blocked_although_request_fits",
+                            "the writer sleeps in write_map(%zu) with the head "
+                            "at ring offset %u of %zu although the readers "
+                            "have consumed enough for the request to fit: %s",
+                            blocked_n, m->head_addr, m->cap, graph.c_str());
+            probe(fit == 0 ? "n.starved_no_room" : "n.starved_undecided");
             probe("n.workload_starved_writer");
             finish_ok();
             return false;
+        });
+
+        // The same question at every quiescent instant (all threads blocked
+        // or asleep, none of them inside a channel call except the writer in
+        // its wait): every release has been announced by then, so a writer
+        // still waiting for a request that fits will wait for ever unless
+        // something unrelated happens.
+        set_idle_hook([&, m] {
+            if (wt_id < 0 || m->in_call || !m->accepting || m->refuse_invoked ||
+                strcmp(block_reason(wt_id), "cond") != 0)
+                return;
+            probe("n.quiescent_with_writer_waiting");
+            if (model_fits(*m, blocked_n) == 1)
+                oracle_fail("C03.blocked_although_request_fits",
+                            "the writer waits in write_map(%zu) with the head "
+                            "at ring offset %u of %zu while every other "
+                            "thread is asleep outside the channel, although "
+                            "the readers have consumed enough for the request "
+                            "to fit",
+                            blocked_n, m->head_addr, m->cap);
         });
 
         int budget = expect_progress("C03.writer_never_finishes",
@@ -964,6 +1112,7 @@ struct ChanHarness : Harness
                 size_t n = resolve_size(*m, op.s("n", "1"));
                 probe("n.write_maps");
                 uint64_t w0 = probe_value("k.cond_waits");
+                blocked_n = n;
                 void* p = channel_write_map(&m->ch, n);
                 probe("n.write_maps_returned");
                 if (probe_value("k.cond_waits") > w0)
@@ -1066,7 +1215,9 @@ struct ChanHarness : Harness
                     int v = (int)op.i("v");
                     if (!v)
                         m->refuse_invoked = true;
+                    ++m->in_call;
                     channel_accept_writes(&m->ch, (uint32_t)v);
+                    --m->in_call;
                     if (!v)
                         probe("n.refusals");
                     m->accepting = v != 0;
